@@ -194,6 +194,17 @@ prop("C09", "fault_enumeration", "instrumented Hal with allocation-failure injec
      "Non-trivial iff the k-th allocation was actually reached (or no fault was planned); distinct by the tuple. Enumeration over k is exhaustive for each configuration (coverage.exhaustive refers to k only).",
      [stage("checked")], [stage("checked"), stage("release"), stage("asan", optional=True)])
 
+prop("C07", "fault_enumeration", "hostile reference device (fault catalogue x target matrix) under AddressSanitizer / Miri / valgrind, with ledger (double release) and differential (scribbling) oracles",
+     "Every fault of the catalogue (used-ring ids out of range / free / other outstanding / duplicated / with high bits set, lengths 0 / +1 / 2^31 / 2^32-1, index jumps 2 / N / 32768 / 65535, element rewritten between the driver's two loads via the load hook) is applied at several positions of a well-formed prefix to the raw VirtQueue (direct, indirect) and to OwningQueue; "
+     "every driver is run on three transports against all-ones / random responses, wrong used lengths, wrong / out-of-range completion ids, index jumps, hostile items on its self-stocked queue and extreme configuration values; each hostile step runs under catch_unwind (a clean panic is an accepted outcome). "
+     "Oracles: AddressSanitizer (quick gate) / Miri (queue + OwningQueue subset) / valgrind memcheck on the plain release binary (thorough) for invalid accesses; the instrumented Hal for double or never-issued unshare / dealloc; slice-length assertions; and a differential run (same seed with and without the device overwriting descriptor table + available ring after every driver store; with an in-place platform also the indirect tables) whose API results and platform-call log must be identical. "
+     "Configuration values that size an allocation run in a memory-limited subprocess (an allocation-failure abort is not a clean panic).",
+     "Sanitizer silence on the catalogue is not memory safety in general (ASan misses intra-object and far out-of-bounds accesses; Miri covers the model-transport subset only). A worker killed by a signal or a sanitizer report counts as a violation of this property; leaks under a hostile device are not violations. Two known findings are listed in known_findings.jsonl.",
+     "a case is (target, fault kind, position/variant): 15 used-ring faults x positions {0,1,2,5} x 8 raw-queue / 4 OwningQueue variants; 11 drivers x 14 driver-level faults x {model, MMIO modern, PCI} x ring-feature variants; 400 (thorough 4000) differential histories over N in {2,4,8} x direct/indirect x event_idx x bounce/in-place platform x table scribbling; 1 memory-limited subprocess. "
+     "Non-trivial iff the fault was actually consumed by the driver (a driver load happened after it); distinct by the case name.",
+     [stage("checked"), stage("asan", timeout=1800)], [stage("checked"), stage("asan", timeout=3600), stage("miri", optional=True, timeout=7200), stage("valgrind", optional=True, shards=16, timeout=7200)],
+     sanitizer_is_violation=True)
+
 NOT_YET = {}
 import re
 props = [json.loads(l) for l in open(os.path.join(ROOT, "properties.jsonl"))]
@@ -208,7 +219,7 @@ def main():
         d = P[pid]
         plan["properties"][pid] = {"level": d["level"], "rule": d["rule"], "assumptions": d["assumptions"],
                                    "stages": {"quick": d["quick"], "thorough": d["thorough"]},
-                                   "sanitizer_is_violation": d["sanitizer_is_violation"]}
+                                   "sanitizer_is_violation": d["sanitizer_is_violation"], "oom_subprocess": pid == "C07"}
         checks.append({
             "property_id": pid,
             "quick_cmd": "./check %s --tier quick" % pid,
